@@ -261,6 +261,17 @@ func implSwallow(variant string) string {
 		})
 		src = `var r = "none"; try { host(function(){ throw {toString: function(){ arm(); for(;;){} }} }); r = "returned" } catch (e) { r = "caught" } r`
 	}
+	if variant == "rethrow-error" {
+		// a host function passes the failure of a call back into script on by panicking with the *otto.Error
+		// that Value.Call returned: the enclosing try catches an error of the SAME class (fce86a0)
+		vm.Set("host", func(call otto.FunctionCall) otto.Value {
+			if _, err := call.Argument(0).Call(otto.UndefinedValue()); err != nil {
+				panic(err)
+			}
+			return otto.UndefinedValue()
+		})
+		src = `var r = []; try { host(function(){ (1).toFixed(-1) }) } catch (e) { r.push(e.name, e instanceof RangeError) } try { host(function(){ null.x }) } catch (e) { r.push(e.name, e instanceof TypeError) } try { host(function(){ nosuch }) } catch (e) { r.push(e.name) } r.join()`
+	}
 	out := ""
 	func() {
 		defer func() {
@@ -774,7 +785,7 @@ func genC18(c *h.Ctx) {
 	for v := 0; v <= 4; v++ {
 		c.Add(fmt.Sprintf("icopy %d", v), "icopy")
 	}
-	for _, v := range []string{"0", "1", "2", "3", "closed", "tostring", "tostring-call"} {
+	for _, v := range []string{"0", "1", "2", "3", "closed", "tostring", "tostring-call", "rethrow-error"} {
 		c.Add("swallow "+v, "swallow")
 	}
 	maxL := c.N(12, 64)
